@@ -62,7 +62,20 @@ def build():
     ub.spec(PRELUDE)
     ub.piece(Piece(f.item("pub struct FileLen(pub u64);")))
     ub.spec(MID)
-    ub.piece(Piece(src.call_arg(fn, "files.retain", 0, occurrence=0), drop_blocks=("if !is_file {",)))
+    from vf.verus_run import LostAnchor
+
+    def retain_closure(must_contain):
+        """The closure body of the `files.retain(..)` call that tests `must_contain` (identified by content, not by position)."""
+        for k in range(0, 4):
+            try:
+                r = src.call_arg(fn, "files.retain", 0, occurrence=k)
+            except LostAnchor:
+                break
+            if all(x in r.text for x in must_contain):
+                return r
+        raise LostAnchor("no files.retain(..) in partition whose predicate uses %s" % (must_contain,))
+
+    ub.piece(Piece(retain_closure(["is_file()"]), drop_blocks=("if !is_file {",)))
     ub.spec('''
 
 // predicate of the 2nd `files.retain(..)` (skipped only under --no-check-size / a transform): a file whose length differs
@@ -70,7 +83,7 @@ def build():
 fn retain_same_length(m: &PathAndMetadata, file_len: FileLen) -> (r: bool)
     ensures r == (m.metadata.now_len == file_len.0), // @ob C02.partition_filters.files_of_another_length_are_left_out
 ''')
-    ub.piece(Piece(src.call_arg(fn, "files.retain", 0, occurrence=1), drop_blocks=("if !len_ok {",)))
+    ub.piece(Piece(retain_closure([".len()", "file_len"]), drop_blocks=("if !len_ok {",)))
     ub.spec('''
 
 // the staleness bail-out: if any of the remaining files was modified after the report was made, the whole group is
